@@ -1568,6 +1568,9 @@ def _imported_def_string(ctx, module, d):
                 return text, sts[-1], "pydef"
             except SyntaxError:
                 return text, sts[-1], "foreign"
+        if sts and isinstance(sts[-1], ast.Assign) and isinstance(sts[-1].value, ast.Name):
+            name = sts[-1].value.id          # module-level alias of another (possibly imported) name
+            continue
         imp = m.imports.get(name)
         if imp is None or imp[1] in (None, "*"):
             return None
